@@ -438,10 +438,10 @@ func registerExternals(e *Engine) {
 			return strings.TrimSpace(s)
 		}
 		ts := strTerms(a[0])
+		if p.anyHighByte(ts) {
+			return p.runFunction(&frame{p: p, th: th, caller: fr.caller, fn: fr.fn}, fr.fn, a, nil)
+		}
 		isSpace := func(c *Term) bool {
-			if p.decide(Cmp(OpUle, ConstT(8, 0x80), c)) {
-				engErr("strings.TrimSpace on a symbolic non-ASCII byte (assume ASCII in the harness)")
-			}
 			sp := Or(Eq(c, ConstT(8, ' ')), Eq(c, ConstT(8, '\t')), Eq(c, ConstT(8, '\n')), Eq(c, ConstT(8, '\v')), Eq(c, ConstT(8, '\f')), Eq(c, ConstT(8, '\r')))
 			return p.decide(sp)
 		}
@@ -453,6 +453,59 @@ func registerExternals(e *Engine) {
 			end--
 		}
 		return mkStr(ts[start:end])
+	}
+
+	// unicode.IsSpace (the unicode tables are not initialised in the engine)
+	x["unicode.IsSpace"] = func(p *Path, th *Thread, fr *frame, a []Value) Value {
+		r := a[0].(*Term)
+		eq := func(v uint64) *Term { return Eq(r, ConstT(32, v)) }
+		rng := func(lo, hi uint64) *Term {
+			return And(Cmp(OpUle, ConstT(32, lo), r), Cmp(OpUle, r, ConstT(32, hi)))
+		}
+		return Or(rng(9, 13), eq(0x20), eq(0x85), eq(0xA0), eq(0x1680), rng(0x2000, 0x200a), eq(0x2028), eq(0x2029), eq(0x202f), eq(0x205f), eq(0x3000))
+	}
+	// string cloning goes through unsafe.String(&b[0], n): strings are immutable
+	// values in the engine, so a clone is the string itself
+	for _, n := range []string{"internal/stringslite.Clone", "strings.Clone", "strconv.cloneString"} {
+		x[n] = func(p *Path, th *Thread, fr *frame, a []Value) Value { return a[0] }
+	}
+	// strings.Fields on symbolic ASCII strings
+	x["strings.Fields"] = func(p *Path, th *Thread, fr *frame, a []Value) Value {
+		if s, ok := a[0].(string); ok {
+			var out []Value
+			for _, f := range strings.Fields(s) {
+				out = append(out, f)
+			}
+			if out == nil {
+				out = []Value{}
+			}
+			return out
+		}
+		ts := strTerms(a[0])
+		if p.anyHighByte(ts) {
+			// non-ASCII input: execute the real std-lib function
+			return p.runFunction(&frame{p: p, th: th, caller: fr.caller, fn: fr.fn}, fr.fn, a, nil)
+		}
+		isSpace := func(c *Term) bool {
+			sp := Or(Eq(c, ConstT(8, ' ')), Eq(c, ConstT(8, '\t')), Eq(c, ConstT(8, '\n')), Eq(c, ConstT(8, '\v')), Eq(c, ConstT(8, '\f')), Eq(c, ConstT(8, '\r')))
+			return p.decide(sp)
+		}
+		out := []Value{}
+		start := -1
+		for i, c := range ts {
+			if isSpace(c) {
+				if start >= 0 {
+					out = append(out, mkStr(ts[start:i]))
+					start = -1
+				}
+			} else if start < 0 {
+				start = i
+			}
+		}
+		if start >= 0 {
+			out = append(out, mkStr(ts[start:]))
+		}
+		return out
 	}
 
 	// strings.Builder uses unsafe to avoid a copy
@@ -585,6 +638,15 @@ func registerExternals(e *Engine) {
 	}
 	x["time.Since"] = func(p *Path, th *Thread, fr *frame, a []Value) Value { return ConstT(64, 1) }
 	x["time.Until"] = func(p *Path, th *Thread, fr *frame, a []Value) Value { return ConstT(64, 1) }
+}
+
+// anyHighByte forks on "some byte is >= 0x80" (one decision for the whole string).
+func (p *Path) anyHighByte(ts []*Term) bool {
+	var hs []*Term
+	for _, c := range ts {
+		hs = append(hs, Cmp(OpUle, ConstT(8, 0x80), c))
+	}
+	return p.decide(Or(hs...))
 }
 
 func mustStr(v Value, what string) string {
